@@ -13,6 +13,7 @@ def Q(tier, q, t):
 
 def s_C01(tier, rng):
     return [("corpus", gen.corpus()),
+            ("long_strings", gen.long_strings(tier, rng, Q(tier, 60, 600))),
             ("arena_small", every(gen.arena_small(tier, rng), Q(tier, 9, 3))),
             ("random_histories", gen.random_histories(tier, rng, Q(tier, 1500, 12000))),
             ("statics_routes", gen.statics_routes(tier, rng, Q(tier, 300, 3000))),
@@ -22,6 +23,7 @@ def s_C01(tier, rng):
 
 def s_C02(tier, rng):
     return [("corpus", gen.corpus()),
+            ("long_strings", gen.long_strings(tier, rng, Q(tier, 60, 600))),
             ("random_histories", gen.random_histories(tier, rng, Q(tier, 2000, 15000))),
             ("statics_routes", gen.statics_routes(tier, rng, Q(tier, 500, 5000))),
             ("clone_stream", gen.clone_stream(tier, rng, Q(tier, 300, 3000))),
@@ -38,6 +40,7 @@ def s_C04(tier, rng):
 
 def s_C06(tier, rng):
     return [("corpus", gen.corpus()),
+            ("long_strings", gen.long_strings(tier, rng, Q(tier, 60, 600))),
             ("views", gen.views(tier, rng, Q(tier, 1500, 20000))),
             ("keyfill", gen.keyfill(tier, rng)),
             ("statics_routes", gen.statics_routes(tier, rng, Q(tier, 300, 3000))),
@@ -80,8 +83,15 @@ def s_C13(tier, rng):
             ("arena_variants", gen.arena_variants(tier, rng, Q(tier, 800, 8000))),
             ("random_histories", gen.random_histories(tier, rng, Q(tier, 500, 6000)))]
 
+def s_C03(tier, rng):
+    # the sequential side of "one key per string, forever": a restored concurrent interner whose tables grow
+    return [("corpus", gen.corpus()),
+            ("threaded_growth_after_de", gen.threaded_growth_after_de(tier, rng)),
+            ("serde_roundtrip", gen.serde_roundtrip(tier, rng, Q(tier, 300, 3000)))]
+
 def s_C14(tier, rng):
     return [("corpus", gen.corpus()),
+            ("threaded_growth_after_de", gen.threaded_growth_after_de(tier, rng)),
             ("serde_big", gen.serde_big(tier, rng)),
             ("serde_roundtrip", gen.serde_roundtrip(tier, rng, Q(tier, 2000, 30000))),
             ("serde_stream", gen.serde_stream(tier, rng, Q(tier, 600, 6000))),
@@ -150,3 +160,9 @@ for modname in ("eng_keys", "eng_conc", "eng_rustc"):
         mod.register(PROPS)
     except ImportError:
         pass
+
+# C03 is decided on schedules, but "one key per string, forever" also has a sequential side (a restored interner whose
+# tables grow): the conc engine runs first, then these streams through the sequential correspondence
+if "C03" in PROPS:
+    PROPS["C03"]["streams"] = s_C03
+    PROPS["C03"]["seq_monitors"] = ["C03", "C01", "C02", "C10", "C14", "EXP"]
